@@ -11,6 +11,7 @@ import OxiddModel.VarNames.Driver
 import OxiddModel.Circuit.Driver
 import OxiddModel.Ffi.Driver
 import OxiddModel.Locks.Driver
+import OxiddModel.Reorder.DriverStore
 
 open OxiddModel
 
@@ -30,7 +31,8 @@ def protos : List (String × Proto) := [
   ("circ", OxiddModel.Circuit.proto),
   ("capi", OxiddModel.Ffi.proto),
   ("locks", OxiddModel.Locks.proto),
-  ("capi-before-fix", OxiddModel.Ffi.protoBeforeFix)
+  ("capi-before-fix", OxiddModel.Ffi.protoBeforeFix),
+  ("reorder-store", OxiddModel.Reorder.SwapStore.proto)
 ]
 
 def main (args : List String) : IO UInt32 := do
